@@ -122,13 +122,37 @@ func c14ChildPrivNormal(klen int) {
 }
 
 // VerifC14ChildPublic: CKDpub for an arbitrary compressed parent point; hardened indexes refused.
-func VerifC14ChildPublic() {
+func VerifC14ChildPublic() { c14ChildPublic(false) }
+
+// VerifC14ChildAfterSiblingZeroed: derivation is a function of (parent, index) only - a child derived after an
+// earlier child of the same parent was derived and wiped (the key store's derive-then-Zero loops) is still the
+// BIP-32 child, fingerprint included. The specification is computed from copies taken before anything is wiped.
+func VerifC14ChildAfterSiblingZeroed() { c14ChildPublic(true) }
+
+// the secp256k1 generator, compressed: a parent point that is on the curve in native runs too
+var c14G = []byte{0x02, 0x79, 0xBE, 0x66, 0x7E, 0xF9, 0xDC, 0xBB, 0xAC, 0x55, 0xA0, 0x62, 0x95, 0xCE, 0x87, 0x0B, 0x07, 0x02, 0x9B, 0xFC, 0xDB, 0x2D, 0xCE, 0x28, 0xD9, 0x59, 0xF2, 0x81, 0x5B, 0x16, 0xF8, 0x17, 0x98}
+
+func c14ChildPublic(wipeSibling bool) {
 	pub := rt.NondetBytes(33)
+	if wipeSibling {
+		// the parent point is fixed to a real curve point (chain code, fingerprint, depth, indexes stay arbitrary),
+		// so that a counterexample does not depend on the uninterpreted "is on the curve" predicate
+		for i := range pub {
+			rt.Assume(pub[i] == c14G[i])
+		}
+	}
 	cc := rt.NondetBytes(32)
 	fp := rt.NondetBytes(4)
 	depth := rt.NondetU8()
 	rt.Assume(depth < 255)
-	k := NewExtendedKey(c14PubVer, pub, cc, fp, depth, rt.NondetU32(), false)
+	k := NewExtendedKey(c14PubVer, append([]byte{}, pub...), append([]byte{}, cc...), fp, depth, rt.NondetU32(), false)
+	if wipeSibling {
+		first, ferr := k.Child(rt.NondetU32())
+		if ferr == nil {
+			first.Zero()
+			rt.Reach("sibling-wiped")
+		}
+	}
 	i := rt.NondetU32()
 	child, err := k.Child(i)
 	if i >= HardenedKeyStart {
@@ -306,3 +330,4 @@ func (k *ExtendedKey) Neuter() (*ExtendedKey, error) {
 	}
 	return k.Neuter__real()
 }
+
